@@ -721,7 +721,21 @@ namespace awkward {
 
       ContentPtr next = content_.get()->carry(nextcarry, true);
 
-      ContentPtr out = next.get()->getitem_next(head, tail, advanced);
+      // 'advanced' has one entry per element of this array: keep the
+      // entries of the elements that are not missing
+      Index64 nextadvanced(advanced.length() == 0 ? 0 : nextcarry.length());
+      if (advanced.length() != 0) {
+        int64_t k = 0;
+        for (int64_t i = 0;  i < outindex.length();  i++) {
+          if (outindex.getitem_at_nowrap(i) >= 0) {
+            nextadvanced.setitem_at_nowrap(k, advanced.getitem_at_nowrap(i));
+            k++;
+          }
+        }
+      }
+
+      ContentPtr out = next.get()->getitem_next(
+        head, tail, advanced.length() == 0 ? advanced : nextadvanced);
       IndexedOptionArray64 out2(identities_, parameters_, outindex, out);
       return out2.simplify_optiontype();
     }
